@@ -90,6 +90,11 @@ func Write(c *spec.Case, root string, env Env) (*Layout, error) {
 	if err := w(filepath.Join(l.AppDir, "providers.go"), withImports(c, UserPkg, providersSource(c))); err != nil {
 		return nil, err
 	}
+	if len(c.PkgNames) > 0 {
+		if err := w(filepath.Join(l.AppDir, "names.go"), namesSource(c)); err != nil {
+			return nil, err
+		}
+	}
 	for i := range c.Files {
 		f := &c.Files[i]
 		p := filepath.Join(l.AppDir, f.Name)
@@ -373,10 +378,17 @@ func typesSource(c *spec.Case) string {
 	var sb strings.Builder
 	sb.WriteString(typeDecls(c, ""))
 	sb.WriteString(compositeHelpers(c))
+	sb.WriteString("var _ = vrt.Mix\n")
+	return sb.String()
+}
+
+// namesSource declares the extra package-level identifiers in a file without imports.
+func namesSource(c *spec.Case) string {
+	var sb strings.Builder
+	sb.WriteString("package " + UserPkg + "\n\n")
 	for _, n := range c.PkgNames {
 		fmt.Fprintf(&sb, "var %s = 0\n\nfunc init() { _ = %s }\n\n", n, n)
 	}
-	sb.WriteString("var _ = vrt.Mix\n")
 	return sb.String()
 }
 
